@@ -69,6 +69,22 @@ def struct_constraint(z3, bs):
     return z3.And(*cs)
 
 
+# fourth pass: digit runs.  `D` stands for a symbolic decimal digit, everything else is fixed: every index, width and precision of
+# 1..6 digits (the u16 boundary 65535/65536 std enforces) and of 20 / 21 digits (around usize::MAX), decided for all digit values at once
+DIGIT_TEMPLATES = ["{%s}", "{:%s}", "{:.%s}", "{:%s$}", "{:.%s$}", "{%s:%s$.%s$}"]
+
+
+def digit_templates(tier):
+    out = []
+    for k in (1, 2, 3, 4, 5, 6) + ((20, 21) if tier == "thorough" else ()):
+        for t in DIGIT_TEMPLATES[:5]:
+            out.append(t % ("D" * k))
+    out.append(DIGIT_TEMPLATES[5] % ("D" * 5, "D" * 5, "D" * 5))
+    if tier == "thorough":
+        out += ["{%s}{}" % ("D" * 5), "{}{:%s$}" % ("D" * 5), "{:%s.%s}" % ("D" * 5, "D" * 5), "{:0%s}" % ("D" * 5), "{:#%s$}" % ("D" * 6)]
+    return out
+
+
 FAIL_TEXT = {
     1: "std accepts the literal, derive_more's parser returns None",
     2: "different number of placeholders",
@@ -106,16 +122,18 @@ def explore(tier, prop):
     passes = [(n, "full") for n in range(0, N + 1)] + [(n, "deep") for n in range(N + 1, DEEP_BOUNDS[tier] + 1)]
     if prop == "C03":
         passes += [(n, "structured") for n in range(max(STRUCT_BOUNDS[tier][0], DEEP_BOUNDS[tier] + 1), STRUCT_BOUNDS[tier][1] + 1)]
-    res["passes"] = passes
-    for n, which in passes:
-        outdir = os.path.join(scratch, "paths-%d" % n)
+    passes = [(n, w, None) for n, w in passes] + [(len(t), "digits", t) for t in digit_templates(tier)]
+    res["passes"] = [(n, w) for n, w, _ in passes]
+    res["digit_templates"] = digit_templates(tier)
+    for pi, (n, which, tmpl) in enumerate(passes):
+        outdir = os.path.join(scratch, "paths-%d-%d" % (pi, n))
         os.makedirs(outdir)
         slots = multiprocessing.Semaphore(workers - 1)
         ex = driver.ParallelExec(mod, outdir, slots, max_steps=40000 * (n + 2))
         bs = [z3.BitVec("b%d" % i, 8) for i in range(n)]
         digest_base = [None]
 
-        def setup(ex, st, n=n, bs=bs, which=which):
+        def setup(ex, st, n=n, bs=bs, which=which, tmpl=tmpl):
             buf = st.alloc(max(n, 1), "input")
             for i in range(n):
                 buf.data[i] = bs[i]
@@ -130,8 +148,10 @@ def explore(tier, prop):
                 st.pc.append(driver.utf8_alphabet_constraint(bs, n, lambda b: z3.ULT(b, 0x80), MULTIBYTE))
             elif n and which == "deep":
                 st.pc.append(z3.And(*[z3.Or(*[b == ord(c) for c in DEEP_ALPHABET]) for b in bs]))
-            elif n:
+            elif n and which == "structured":
                 st.pc.append(struct_constraint(z3, bs))
+            elif n:
+                st.pc.append(z3.And(*[z3.And(z3.UGE(b, 0x30), z3.ULE(b, 0x39)) if c == "D" else b == ord(c) for b, c in zip(bs, tmpl)]))
 
         def describe(kind, detail, st, m, bs=bs):
             inp = [m.eval(b, model_completion=True).as_long() for b in bs] if m is not None else None
@@ -166,11 +186,12 @@ def explore(tier, prop):
         dt = time.time() - t
         if not ok:
             res["inconclusive"].append("a worker process of the length-%d exploration died" % n)
-        res["lengths"][n] = {"alphabet": which, "paths": stats.get("paths", 0), "forks": stats.get("forks", 0), "queries": stats.get("queries", 0),
+        lkey = n if tmpl is None else "digits:" + tmpl
+        res["lengths"][lkey] = {"alphabet": which, "paths": stats.get("paths", 0), "forks": stats.get("forks", 0), "queries": stats.get("queries", 0),
                              "instrs": stats.get("instrs", 0), "solver_s": round(solver_s, 2), "wall_s": round(dt, 2),
                              "ends": {k[4:]: v for k, v in stats.items() if k.startswith("end_")}}
         log("[%s] len=%d (%s alphabet) paths=%d queries=%d solver=%.1fs wall=%.1fs ends=%s" % (
-            prop, n, which, stats.get("paths", 0), stats.get("queries", 0), solver_s, dt, res["lengths"][n]["ends"]))
+            prop, n, which if tmpl is None else tmpl, stats.get("paths", 0), stats.get("queries", 0), solver_s, dt, res["lengths"][lkey]["ends"]))
         all_recs.extend(recs)
         for k, v in stats.items():
             total_stats[k] = total_stats.get(k, 0) + v
@@ -234,7 +255,8 @@ def coverage_common(res, tier):
                    "structured_pass": ("lengths %s: literals of the regular language (' ' | `{` [0|1|a] [`:` [#] [1|1$|a$] [.1|.1$|.a$|.*] [?|x|x?]] `}`)*, "
                                        "imposed on the symbolic bytes as a DFA constraint" % sorted(n for n, w in res.get("passes", []) if w == "structured"))
                                       if any(w == "structured" for _, w in res.get("passes", [])) else "not part of this check",
-                   "outside": "longer literals; other non-ASCII characters; longer literals with characters outside the reduced alphabet"},
+                   "digit_run_pass": "templates %s where every D is a symbolic decimal digit (all values decided at once)" % res.get("digit_templates"),
+                   "outside": "longer literals; other non-ASCII characters; longer literals with characters outside the reduced alphabet / the structured language / the digit templates"},
         "per_length": L,
         "solver_time_s": round(sum(v["solver_s"] for v in L.values()), 1),
         "instructions_executed": sum(v["instrs"] for v in L.values()),
